@@ -263,11 +263,19 @@ def consumers_of(text):
     """{section index: [(file, consumer kind, binding dicts that name it)]} read off the dump statements."""
     out = {}
     sec = -1
-    bindings = []
+    env = {}
     filt = {}
 
+    def value(e):
+        if isinstance(e, ast.Name):
+            return env.get(e.id)
+        try:
+            return _lit(e)
+        except Exception:
+            return None
+
     def visit(stmts):
-        nonlocal sec, bindings, filt
+        nonlocal sec, filt
         for st in stmts:
             if isinstance(st, ast.For):
                 visit(st.body)
@@ -286,15 +294,17 @@ def consumers_of(text):
                     filt[a[2]] = (a[0], a[1])
                 elif (o, m) == ("Compute", "numIters"):
                     out[sec].append((_lit(e.args[0]), "sequencer", []))
-            if isinstance(st, ast.Assign) and isinstance(st.targets[0], ast.Name):
-                nm = st.targets[0].id
-                if nm == "bindings":
-                    bindings = _lit(st.value)
-                elif nm == "traces":
-                    for (t, r, ty, rw), f in _lit(st.value).items():
+                elif o == "Traffic" and m in ("buffetTraffic", "cacheTraffic"):
+                    bindings = value(e.args[0]) or []
+                    for (t, r, ty, rw), f in (value(e.args[2]) or {}).items():
                         bs = [b for b in bindings if b["tensor"] == t and b["rank"] == r and b["type"] == ty]
                         for g in [f] + list(filt.get(f, ())):
                             out[sec].append((g, "traffic", bs))
+            if isinstance(st, ast.Assign) and isinstance(st.targets[0], ast.Name):
+                try:
+                    env[st.targets[0].id] = _lit(st.value)
+                except Exception:
+                    env.pop(st.targets[0].id, None)
     visit(ast.parse(text).body)
     return out
 
